@@ -64,6 +64,7 @@ PROPS = {
                   r'^date :: impl Date / fn (and_hms|and_time|and_zero_time)$',
                   r'^(date|time|timestamp) :: impl DateTime for (Date|Time|Timestamp) / fn ',
                   r'^common :: fn (is_valid_time|is_valid_timestamp)$', r'^common :: const (TIMESTAMP_MIN|TIMESTAMP_MAX)$',
+                  r'^time :: impl From<Timestamp> for Time / fn from$',
                   r'^(time|timestamp) :: proof fn lemma_ext$',
                   r'^laws :: fn law_c07_'] + TIME_LEMMAS,
         'kinds': FUNCTIONAL,
